@@ -118,7 +118,13 @@ def main():
         for i, st in enumerate(f.body):
             if stmt_performs_write(st):
                 last_write = i
-        tail = f.body[last_write + 1:]
+        tail = []
+        for st in f.body[last_write + 1:]:
+            # a statement that can leave the function (return / raise somewhere inside it) ends the part of the
+            # body that is executed unconditionally: clears after it do not count
+            if any(isinstance(n, (ast.Return, ast.Raise)) for n in ast.walk(st)):
+                break
+            tail.append(st)
         out = clears_of(tail)
         # a write inside `try:` with the clearing in `finally:` / inside a `with` block that also clears
         if last_write >= 0 and isinstance(f.body[last_write], ast.Try):
